@@ -22,7 +22,7 @@ from harness import core, tlaval
 from harness import types_gen as tg
 
 LEVEL = "model_checking"
-XSS = {"JAVA_TOOL_OPTIONS": "-Xss64m"}
+XSS = {"JAVA_TOOL_OPTIONS": "-Xss64m -XX:ParallelGCThreads=2 -Xms256m"}
 VARIANTS = ("arm", "msvc", "fitge", "nounionreset")
 
 CFG = """SPECIFICATION Spec
@@ -180,8 +180,8 @@ def run_variants(ctx):
     that the closed form of the bit-field rule is the declarative 'first position that fits'."""
     def one(v):
         if v == "lemma":
-            return v, core.tlc("MC_LayoutLemma", workers=1, timeout=900)
-        return v, core.tlc("MC_Layout", cfg_text=cfg(2, 0, v), workers=2, timeout=900)
+            return v, core.tlc("MC_LayoutLemma", workers=1, timeout=900, env=XSS)
+        return v, core.tlc("MC_Layout", cfg_text=cfg(2, 0, v), workers=2, timeout=900, env=XSS)
     with concurrent.futures.ThreadPoolExecutor(max_workers=5) as ex:
         for v, r in ex.map(one, VARIANTS + ("lemma",)):
             if v == "lemma":
@@ -233,13 +233,13 @@ def run(ctx):
         fv = ex.submit(run_variants, ctx)
         frnd = ex.submit(measure, ctx, rnd, "r")             # code -> spec measurements meanwhile
         if quick:
-            r = core.tlc("MC_Layout", cfg_text=cfg(2, 2, fold=True), workers=6, timeout=900)
+            r = core.tlc("MC_Layout", cfg_text=cfg(2, 2, fold=True), workers=6, timeout=900, env=XSS)
             ctx.add_tlc("MC_Layout(<=2 members, 47 letters, struct/union, 4 packings)", r)
             bound = 2
         else:
-            r = core.tlc("MC_Layout", cfg_text=cfg(3, 2), workers=8, timeout=3000)
+            r = core.tlc("MC_Layout", cfg_text=cfg(3, 2), workers=8, timeout=3000, env=XSS)
             ctx.add_tlc("MC_Layout(<=3 members, 47 letters, struct/union, 4 packings)", r)
-            r2 = core.tlc("MC_Layout", cfg_text=cfg(2, 0, fold=True), workers=2, timeout=900)
+            r2 = core.tlc("MC_Layout", cfg_text=cfg(2, 0, fold=True), workers=2, timeout=900, env=XSS)
             ctx.add_tlc("MC_Layout(<=2 members, machine = fold)", r2, count_states=False)
             bound = 3
         alpha, decl_nodes = decls_from_tlc(r.out)
